@@ -196,5 +196,15 @@ int main(int argc, char** argv) {
     printf("box x = [%g, %g], position at t=5 s: x = %g\n", box.x.min, box.x.max, v.x);
     return (v.x < box.x.min - 1) ? 1 : 0;
   }
+  if (which == 23) { /* D22: ArrayBytecodeStore kept the program size in 16 bits: a light program of 65536 + n bytes handed to
+                        sb_light_program_init_from_buffer played as its first n bytes only (here n = 0: an empty program, black and ended,
+                        although the program sets white for 100 s at its very beginning) */
+    size_t n = 65536; uint8_t* p = malloc(n); memset(p, 0x01, n);          /* NOPs */
+    p[0] = 0x07; p[1] = 0x88; p[2] = 0x27;                                   /* SET_WHITE for 5000 x 20 ms */
+    sb_light_program_t lp; sb_light_program_init_from_buffer(&lp, p, n);
+    sb_light_player_t pl; sb_light_player_init(&pl, &lp);
+    sb_rgb_color_t c = sb_light_player_get_color_at(&pl, 1000); printf("colour at 1 s: %d %d %d (expected 255 255 255)\n", c.red, c.green, c.blue);
+    return c.red == 255 ? 0 : 1;
+  }
   return 0;
 }
